@@ -218,11 +218,17 @@ where
 
         if blocks.len() == 1 {
             // Start a single-block read
-            self.card_command(CMD17, start_idx)?;
+            if self.card_command(CMD17, start_idx)? != R1_READY_STATE {
+                // the card refused the command, so no data will follow
+                return Err(Error::ReadError);
+            }
             self.read_data(&mut blocks[0].contents)?;
         } else {
             // Start a multi-block read
-            self.card_command(CMD18, start_idx)?;
+            if self.card_command(CMD18, start_idx)? != R1_READY_STATE {
+                // the card refused the command, so no data will follow
+                return Err(Error::ReadError);
+            }
             let mut result = Ok(());
             for block in blocks.iter_mut() {
                 result = self.read_data(&mut block.contents);
@@ -248,7 +254,10 @@ where
         };
         if blocks.len() == 1 {
             // Start a single-block write
-            self.card_command(CMD24, start_idx)?;
+            if self.card_command(CMD24, start_idx)? != R1_READY_STATE {
+                // the card refused the command: it must not be sent a data block
+                return Err(Error::WriteError);
+            }
             self.write_data(DATA_START_BLOCK, &blocks[0].contents)?;
             self.wait_not_busy(Delay::new_write())?;
             if self.card_command(CMD13, 0)? != 0x00 {
@@ -266,7 +275,10 @@ where
             self.wait_not_busy(Delay::new_write())?;
 
             // Start a multi-block write
-            self.card_command(CMD25, start_idx)?;
+            if self.card_command(CMD25, start_idx)? != R1_READY_STATE {
+                // the card refused the command: it must not be sent data blocks
+                return Err(Error::WriteError);
+            }
             for block in blocks.iter() {
                 self.wait_not_busy(Delay::new_write())?;
                 self.write_data(WRITE_MULTIPLE_TOKEN, &block.contents)?;
